@@ -212,7 +212,7 @@ def run(tier):
     # holds top and extends it; below: prepend; disjoint: new segment + release); mapped bytes at a mark
     # after the baseline must never exceed those at a baseline mark - a segment that creeps by a few
     # bytes per cycle shows as soon as it needs one more granule.  Debug build too (internal assertions).
-    cyc_reps = 2000 if quick else 6000
+    cyc_reps = 1400 if quick else 6000
     cycle_plans = []
     for blocks in ([classes[-1]], [classes[0], classes[-1]], [classes[-1], classes[-1]]):
         for osd in ("a", "b", "d"):
@@ -279,7 +279,7 @@ def run(tier):
                            "series": True, "spacers": i % 3 == 2, "watchdog": 600, "src": "real-os-long"})
     # debug build (assertions on) for the TLC workloads, release build for the rest;
     # processed in chunks so that memory stays bounded
-    jobs = [("debug", bin_dbg, plans[:n_tlc]), ("release", bin_rel, plans[n_tlc:]), ("debug-cycles", bin_dbg, cycle_plans)]
+    jobs = [("debug", bin_dbg, plans[:n_tlc]), ("release", bin_rel, plans[n_tlc:]), ("debug-cycles", bin_dbg, [p for p in cycle_plans if not quick or p["os"] != "d"])]
     CH = 1200
     work = [(build, bindir, pl[i:i + CH], i, False) for build, bindir, pl in jobs for i in range(0, len(pl), CH)]
     work += [("debug-realos", bin_dbg, real_plans, 0, True), ("release-realos", bin_rel, real_plans, 0, True)]
